@@ -561,6 +561,7 @@ func (r *rng) pointPair() (rawPt, rawPt) {
 func genPoints(e *emitter, r *rng, n int, withMul int) {
 	e.line("G.base")
 	e.line("G.order")
+	e.line("G.consts")
 	for guard := 0; e.n < n && guard < 200*n+1000; guard++ {
 		p, q := r.pointPair()
 		switch r.intn(14) {
@@ -1184,7 +1185,7 @@ var subFamilies = map[string]subFamily{
 	"scenc":    {"scalarapi", []string{"SC.enc", "SC.dec", "SC.unmarshal", "SC.dechex"}},
 	"grouplaw": {"points", []string{"PT.add", "PT.addnil", "PT.addself", "PT.dbl", "PT.neg", "PT.sub", "PT.subnil", "PT.subself"}},
 	"eq":       {"points", []string{"PT.eq", "PT.eqself", "PT.isid"}},
-	"enc":      {"points", []string{"PT.enc", "G.base"}},
+	"enc":      {"points", []string{"PT.enc", "G.base", "G.consts", "G.order"}},
 	"sfcmp":    {"scalarfield", []string{"S.eq", "S.iszero", "S.cmov"}},
 	"sfarith":  {"scalarfield", []string{"S.add", "S.sub", "S.mul", "S.sq", "S.inv", "S.tomont", "S.frommont"}},
 	"sfenc":    {"scalarfield", []string{"S.reducebytes", "S.tomont", "S.frommont"}},
